@@ -178,4 +178,377 @@ theorem declareBinder_st (env : List Int) (c : Int) :
   rw [envMaps_length] at h
   simp [declareBinder, st, stDeclared, h, new_insert]
 
+-- ---------------------------------------------------------------- name → index = spec
+section
+variable {β : Type} (mk : String → Nat → β)
+
+theorem map_ok {α γ : Type} (f : α → γ) (a : α) : (Except.ok a : Except Err α).map f = .ok (f a) := rfl
+theorem map_err {α γ : Type} (f : α → γ) (e : Err) : (Except.error e : Except Err α).map f = .error e := rfl
+
+mutual
+theorem nameTo_st : ∀ (t : Term Name) (env : List Int) (c : Int),
+    nameTo mk t (st env c) = (specNameTo mk env t).map (fun r => (r, st env c))
+  | .var n, env, c => by
+    simp only [nameTo, specNameTo, getIndex_st]
+    cases resolve env n.unique <;> rfl
+  | .delay t, env, c => by
+    simp only [nameTo, specNameTo, nameTo_st t env c]
+    cases specNameTo mk env t <;> rfl
+  | .force t, env, c => by
+    simp only [nameTo, specNameTo, nameTo_st t env c]
+    cases specNameTo mk env t <;> rfl
+  | .lam n b, env, c => by
+    simp only [nameTo, specNameTo, declareUnique_st, getIndex_declared, startScope_declared, bind, Except.bind,
+      nameTo_st b (n.unique :: env) c]
+    cases specNameTo mk (n.unique :: env) b with
+    | error e => rfl
+    | ok b' => simp [Except.map, endScope_st, removeUnique_declared, pure, Except.pure]
+  | .app f a, env, c => by
+    simp only [nameTo, specNameTo, bind, Except.bind, nameTo_st f env c]
+    cases specNameTo mk env f with
+    | error e => rfl
+    | ok f' =>
+      simp only [Except.map, nameTo_st a env c]
+      cases specNameTo mk env a <;> rfl
+  | .const _, _, _ => rfl
+  | .error, _, _ => rfl
+  | .builtin _, _, _ => rfl
+  | .constr tag fs, env, c => by
+    simp only [nameTo, specNameTo, nameToList_st fs env c]
+    cases specNameToList mk env fs <;> rfl
+  | .case s bs, env, c => by
+    simp only [nameTo, specNameTo, bind, Except.bind, nameTo_st s env c]
+    cases specNameTo mk env s with
+    | error e => rfl
+    | ok s' =>
+      simp only [Except.map, nameToList_st bs env c]
+      cases specNameToList mk env bs <;> rfl
+theorem nameToList_st : ∀ (ts : List (Term Name)) (env : List Int) (c : Int),
+    nameToList mk ts (st env c) = (specNameToList mk env ts).map (fun r => (r, st env c))
+  | [], _, _ => rfl
+  | t :: ts, env, c => by
+    simp only [nameToList, specNameToList, bind, Except.bind, nameTo_st t env c]
+    cases specNameTo mk env t with
+    | error e => rfl
+    | ok t' =>
+      simp only [Except.map, nameToList_st ts env c]
+      cases specNameToList mk env ts <;> rfl
+end
+end
+
+-- ---------------------------------------------------------------- index → name (fixed) = spec
+section
+variable {β : Type} (idx : β → Nat) (txt : β → Int → String)
+
+mutual
+theorem toName_st : ∀ (t : Term β) (env : List Int) (c : Int),
+    toName true idx txt t (st env c) = (specToName idx txt env c t).map (fun r => (r.1, st env r.2))
+  | .var n, env, c => by
+    simp only [toName, specToName, getUnique_st]
+    cases idx n with
+    | zero => rfl
+    | succ j => simp only []; cases env[j]? <;> rfl
+  | .delay t, env, c => by
+    simp only [toName, specToName, toName_st t env c]
+    cases specToName idx txt env c t <;> rfl
+  | .force t, env, c => by
+    simp only [toName, specToName, toName_st t env c]
+    cases specToName idx txt env c t <;> rfl
+  | .lam n b, env, c => by
+    simp only [toName, specToName, declareBinder_st, startScope_declared, bind, Except.bind, if_true, pure, Except.pure,
+      toName_st b (c :: env) (c + 1)]
+    cases specToName idx txt (c :: env) (c + 1) b with
+    | error e => rfl
+    | ok r => simp [Except.map, endScope_st, removeUnique_declared]
+  | .app f a, env, c => by
+    simp only [toName, specToName, bind, Except.bind, toName_st f env c]
+    cases specToName idx txt env c f with
+    | error e => rfl
+    | ok r =>
+      simp only [Except.map, toName_st a env r.2]
+      cases specToName idx txt env r.2 a <;> rfl
+  | .const _, _, _ => rfl
+  | .error, _, _ => rfl
+  | .builtin _, _, _ => rfl
+  | .constr tag fs, env, c => by
+    simp only [toName, specToName, toNameList_st fs env c]
+    cases specToNameList idx txt env c fs <;> rfl
+  | .case s bs, env, c => by
+    simp only [toName, specToName, bind, Except.bind, toName_st s env c]
+    cases specToName idx txt env c s with
+    | error e => rfl
+    | ok r =>
+      simp only [Except.map, toNameList_st bs env r.2]
+      cases specToNameList idx txt env r.2 bs <;> rfl
+theorem toNameList_st : ∀ (ts : List (Term β)) (env : List Int) (c : Int),
+    toNameList true idx txt ts (st env c) = (specToNameList idx txt env c ts).map (fun r => (r.1, st env r.2))
+  | [], _, _ => rfl
+  | t :: ts, env, c => by
+    simp only [toNameList, specToNameList, bind, Except.bind, toName_st t env c]
+    cases specToName idx txt env c t with
+    | error e => rfl
+    | ok r =>
+      simp only [Except.map, toNameList_st ts env r.2]
+      cases specToNameList idx txt env r.2 ts <;> rfl
+end
+end
+
+-- ---------------------------------------------------------------- name → index spec: error ⇔ first free occurrence
+section
+variable {β : Type} (mk : String → Nat → β)
+
+/-- what the name→index spec returns, in terms of the free occurrences -/
+def NameDich (fo : List Name) {α : Type} (r : Except Err α) : Prop :=
+  (fo = [] ∧ ∃ d, r = .ok d) ∨ (∃ n rest, fo = n :: rest ∧ r = .error (.freeUnique n))
+
+mutual
+theorem specNameTo_dich : ∀ (t : Term Name) (env : List Int),
+    NameDich (freeOccs env t) (specNameTo mk env t)
+  | .var n, env => by
+    simp only [freeOccs, specNameTo, NameDich]
+    by_cases h : n.unique ∈ env
+    · have : resolve env n.unique ≠ none := fun e => (resolve_none_iff env n.unique).mp e h
+      cases hr : resolve env n.unique with
+      | none => exact absurd hr this
+      | some i => simp [h]
+    · have := (resolve_none_iff env n.unique).mpr h
+      simp [h, this]
+  | .delay t, env => by
+    have ih := specNameTo_dich t env
+    simp only [freeOccs, specNameTo, NameDich] at ih ⊢
+    rcases ih with ⟨h, d, hd⟩ | ⟨n, rest, h, hd⟩
+    · left; simp [h, hd, bind, Except.bind, pure, Except.pure]
+    · right; exact ⟨n, rest, h, by simp [hd, bind, Except.bind]⟩
+  | .force t, env => by
+    have ih := specNameTo_dich t env
+    simp only [freeOccs, specNameTo, NameDich] at ih ⊢
+    rcases ih with ⟨h, d, hd⟩ | ⟨n, rest, h, hd⟩
+    · left; simp [h, hd, bind, Except.bind, pure, Except.pure]
+    · right; exact ⟨n, rest, h, by simp [hd, bind, Except.bind]⟩
+  | .lam m b, env => by
+    have ih := specNameTo_dich b (m.unique :: env)
+    simp only [freeOccs, specNameTo, NameDich] at ih ⊢
+    rcases ih with ⟨h, d, hd⟩ | ⟨n, rest, h, hd⟩
+    · left; simp [h, hd, bind, Except.bind, pure, Except.pure]
+    · right; exact ⟨n, rest, h, by simp [hd, bind, Except.bind]⟩
+  | .app f a, env => by
+    have ihf := specNameTo_dich f env
+    have iha := specNameTo_dich a env
+    simp only [freeOccs, specNameTo, NameDich] at ihf iha ⊢
+    rcases ihf with ⟨h, d, hd⟩ | ⟨n, rest, h, hd⟩
+    · rcases iha with ⟨h', d', hd'⟩ | ⟨n, rest, h', hd'⟩
+      · left; simp [h, hd, h', hd', bind, Except.bind, pure, Except.pure]
+      · right; exact ⟨n, rest, by simp [h, h'], by simp [hd, hd', bind, Except.bind]⟩
+    · right; exact ⟨n, rest ++ freeOccs env a, by simp [h], by simp [hd, bind, Except.bind]⟩
+  | .const _, _ => by simp [freeOccs, specNameTo, NameDich, pure, Except.pure]
+  | .error, _ => by simp [freeOccs, specNameTo, NameDich, pure, Except.pure]
+  | .builtin _, _ => by simp [freeOccs, specNameTo, NameDich, pure, Except.pure]
+  | .constr tag fs, env => by
+    have ih := specNameToList_dich fs env
+    simp only [freeOccs, specNameTo, NameDich] at ih ⊢
+    rcases ih with ⟨h, d, hd⟩ | ⟨n, rest, h, hd⟩
+    · left; simp [h, hd, bind, Except.bind, pure, Except.pure]
+    · right; exact ⟨n, rest, h, by simp [hd, bind, Except.bind]⟩
+  | .case s bs, env => by
+    have ihf := specNameTo_dich s env
+    have iha := specNameToList_dich bs env
+    simp only [freeOccs, specNameTo, NameDich] at ihf iha ⊢
+    rcases ihf with ⟨h, d, hd⟩ | ⟨n, rest, h, hd⟩
+    · rcases iha with ⟨h', d', hd'⟩ | ⟨n, rest, h', hd'⟩
+      · left; simp [h, hd, h', hd', bind, Except.bind, pure, Except.pure]
+      · right; exact ⟨n, rest, by simp [h, h'], by simp [hd, hd', bind, Except.bind]⟩
+    · right; exact ⟨n, rest ++ freeOccsList env bs, by simp [h], by simp [hd, bind, Except.bind]⟩
+theorem specNameToList_dich : ∀ (ts : List (Term Name)) (env : List Int),
+    NameDich (freeOccsList env ts) (specNameToList mk env ts)
+  | [], _ => by simp [freeOccsList, specNameToList, NameDich, pure, Except.pure]
+  | t :: ts, env => by
+    have ihf := specNameTo_dich t env
+    have iha := specNameToList_dich ts env
+    simp only [freeOccsList, specNameToList, NameDich] at ihf iha ⊢
+    rcases ihf with ⟨h, d, hd⟩ | ⟨n, rest, h, hd⟩
+    · rcases iha with ⟨h', d', hd'⟩ | ⟨n, rest, h', hd'⟩
+      · left; simp [h, hd, h', hd', bind, Except.bind, pure, Except.pure]
+      · right; exact ⟨n, rest, by simp [h, h'], by simp [hd, hd', bind, Except.bind]⟩
+    · right; exact ⟨n, rest ++ freeOccsList env ts, by simp [h], by simp [hd, bind, Except.bind]⟩
+end
+end
+
+-- ---------------------------------------------------------------- index → name spec: ok ⇔ closed; counter monotone
+section
+variable {β : Type} (idx : β → Nat) (txt : β → Int → String)
+
+/-- what the index→name spec returns, in terms of closedness -/
+def IdxDich (closed : Bool) {α : Type} (r : Except Err α) : Prop :=
+  (closed = true ∧ ∃ d, r = .ok d) ∨ (closed = false ∧ ∃ i, r = .error (.freeIndex i))
+
+mutual
+theorem specToName_dich : ∀ (t : Term β) (env : List Int) (c : Int),
+    IdxDich (closedI idx env.length t) (specToName idx txt env c t)
+  | .var n, env, c => by
+    simp only [closedI, specToName, IdxDich]
+    cases h : idx n with
+    | zero => simp
+    | succ j =>
+      simp only []
+      cases hj : env[j]? with
+      | none =>
+        have : env.length ≤ j := by simpa using hj
+        right; simp; omega
+      | some u =>
+        have : j < env.length := by
+          rcases List.getElem?_eq_some_iff.mp hj with ⟨h1, _⟩; exact h1
+        left; simp; omega
+  | .delay t, env, c => by
+    have ih := specToName_dich t env c
+    simp only [closedI, specToName, IdxDich] at ih ⊢
+    rcases ih with ⟨h, d, hd⟩ | ⟨h, i, hd⟩
+    · left; simp [h, hd, bind, Except.bind, pure, Except.pure]
+    · right; simp [h, hd, bind, Except.bind]
+  | .force t, env, c => by
+    have ih := specToName_dich t env c
+    simp only [closedI, specToName, IdxDich] at ih ⊢
+    rcases ih with ⟨h, d, hd⟩ | ⟨h, i, hd⟩
+    · left; simp [h, hd, bind, Except.bind, pure, Except.pure]
+    · right; simp [h, hd, bind, Except.bind]
+  | .lam m b, env, c => by
+    have ih := specToName_dich b (c :: env) (c + 1)
+    simp only [closedI, specToName, IdxDich, List.length_cons] at ih ⊢
+    rcases ih with ⟨h, d, hd⟩ | ⟨h, i, hd⟩
+    · left; simp [h, hd, bind, Except.bind, pure, Except.pure]
+    · right; simp [h, hd, bind, Except.bind]
+  | .app f a, env, c => by
+    have ihf := specToName_dich f env c
+    simp only [closedI, specToName, IdxDich] at ihf ⊢
+    rcases ihf with ⟨h, d, hd⟩ | ⟨h, i, hd⟩
+    · have iha := specToName_dich a env d.2
+      simp only [IdxDich] at iha
+      rcases iha with ⟨h', d', hd'⟩ | ⟨h', i, hd'⟩
+      · left; simp [h, hd, h', hd', bind, Except.bind, pure, Except.pure]
+      · right; simp [h, hd, h', hd', bind, Except.bind]
+    · right; simp [h, hd, bind, Except.bind]
+  | .const _, _, _ => by simp [closedI, specToName, IdxDich, pure, Except.pure]
+  | .error, _, _ => by simp [closedI, specToName, IdxDich, pure, Except.pure]
+  | .builtin _, _, _ => by simp [closedI, specToName, IdxDich, pure, Except.pure]
+  | .constr tag fs, env, c => by
+    have ih := specToNameList_dich fs env c
+    simp only [closedI, specToName, IdxDich] at ih ⊢
+    rcases ih with ⟨h, d, hd⟩ | ⟨h, i, hd⟩
+    · left; simp [h, hd, bind, Except.bind, pure, Except.pure]
+    · right; simp [h, hd, bind, Except.bind]
+  | .case s bs, env, c => by
+    have ihf := specToName_dich s env c
+    simp only [closedI, specToName, IdxDich] at ihf ⊢
+    rcases ihf with ⟨h, d, hd⟩ | ⟨h, i, hd⟩
+    · have iha := specToNameList_dich bs env d.2
+      simp only [IdxDich] at iha
+      rcases iha with ⟨h', d', hd'⟩ | ⟨h', i, hd'⟩
+      · left; simp [h, hd, h', hd', bind, Except.bind, pure, Except.pure]
+      · right; simp [h, hd, h', hd', bind, Except.bind]
+    · right; simp [h, hd, bind, Except.bind]
+theorem specToNameList_dich : ∀ (ts : List (Term β)) (env : List Int) (c : Int),
+    IdxDich (closedIList idx env.length ts) (specToNameList idx txt env c ts)
+  | [], _, _ => by simp [closedIList, specToNameList, IdxDich, pure, Except.pure]
+  | t :: ts, env, c => by
+    have ihf := specToName_dich t env c
+    simp only [closedIList, specToNameList, IdxDich] at ihf ⊢
+    rcases ihf with ⟨h, d, hd⟩ | ⟨h, i, hd⟩
+    · have iha := specToNameList_dich ts env d.2
+      simp only [IdxDich] at iha
+      rcases iha with ⟨h', d', hd'⟩ | ⟨h', i, hd'⟩
+      · left; simp [h, hd, h', hd', bind, Except.bind, pure, Except.pure]
+      · right; simp [h, hd, h', hd', bind, Except.bind]
+    · right; simp [h, hd, bind, Except.bind]
+end
+
+mutual
+/-- the counter only grows -/
+theorem specToName_mono : ∀ (t : Term β) (env : List Int) (c : Int) (r : Term Name × Int),
+    specToName idx txt env c t = .ok r → c ≤ r.2
+  | .var n, env, c, r, h => by
+    simp only [specToName] at h
+    split at h
+    · cases h
+    · split at h
+      · cases h; simp
+      · cases h
+  | .delay t, env, c, r, h => by
+    simp only [specToName, bind, Except.bind] at h
+    cases ht : specToName idx txt env c t with
+    | error e => simp [ht] at h
+    | ok r1 =>
+      simp [ht, pure, Except.pure] at h
+      have := specToName_mono t env c r1 ht
+      subst h; exact this
+  | .force t, env, c, r, h => by
+    simp only [specToName, bind, Except.bind] at h
+    cases ht : specToName idx txt env c t with
+    | error e => simp [ht] at h
+    | ok r1 =>
+      simp [ht, pure, Except.pure] at h
+      have := specToName_mono t env c r1 ht
+      subst h; exact this
+  | .lam m b, env, c, r, h => by
+    simp only [specToName, bind, Except.bind] at h
+    cases ht : specToName idx txt (c :: env) (c + 1) b with
+    | error e => simp [ht] at h
+    | ok r1 =>
+      simp [ht, pure, Except.pure] at h
+      have := specToName_mono b (c :: env) (c + 1) r1 ht
+      subst h; simp; omega
+  | .app f a, env, c, r, h => by
+    simp only [specToName, bind, Except.bind] at h
+    cases hf : specToName idx txt env c f with
+    | error e => simp [hf] at h
+    | ok r1 =>
+      simp only [hf] at h
+      cases ha : specToName idx txt env r1.2 a with
+      | error e => simp [ha] at h
+      | ok r2 =>
+        simp [ha, pure, Except.pure] at h
+        have h1 := specToName_mono f env c r1 hf
+        have h2 := specToName_mono a env r1.2 r2 ha
+        subst h; simp; omega
+  | .const _, _, c, r, h => by simp [specToName, pure, Except.pure] at h; subst h; simp
+  | .error, _, c, r, h => by simp [specToName, pure, Except.pure] at h; subst h; simp
+  | .builtin _, _, c, r, h => by simp [specToName, pure, Except.pure] at h; subst h; simp
+  | .constr tag fs, env, c, r, h => by
+    simp only [specToName, bind, Except.bind] at h
+    cases ht : specToNameList idx txt env c fs with
+    | error e => simp [ht] at h
+    | ok r1 =>
+      simp [ht, pure, Except.pure] at h
+      have := specToNameList_mono fs env c r1 ht
+      subst h; exact this
+  | .case s bs, env, c, r, h => by
+    simp only [specToName, bind, Except.bind] at h
+    cases hf : specToName idx txt env c s with
+    | error e => simp [hf] at h
+    | ok r1 =>
+      simp only [hf] at h
+      cases ha : specToNameList idx txt env r1.2 bs with
+      | error e => simp [ha] at h
+      | ok r2 =>
+        simp [ha, pure, Except.pure] at h
+        have h1 := specToName_mono s env c r1 hf
+        have h2 := specToNameList_mono bs env r1.2 r2 ha
+        subst h; simp; omega
+theorem specToNameList_mono : ∀ (ts : List (Term β)) (env : List Int) (c : Int) (r : List (Term Name) × Int),
+    specToNameList idx txt env c ts = .ok r → c ≤ r.2
+  | [], _, c, r, h => by simp [specToNameList, pure, Except.pure] at h; subst h; simp
+  | t :: ts, env, c, r, h => by
+    simp only [specToNameList, bind, Except.bind] at h
+    cases hf : specToName idx txt env c t with
+    | error e => simp [hf] at h
+    | ok r1 =>
+      simp only [hf] at h
+      cases ha : specToNameList idx txt env r1.2 ts with
+      | error e => simp [ha] at h
+      | ok r2 =>
+        simp [ha, pure, Except.pure] at h
+        have h1 := specToName_mono t env c r1 hf
+        have h2 := specToNameList_mono ts env r1.2 r2 ha
+        subst h; simp; omega
+end
+end
+
 end AikenVerif.Db
